@@ -939,3 +939,219 @@ func runR65(c *Ctx) {
 		}
 	}
 }
+
+// ---- R67: Not over a plain filter toggles Inverse ----
+
+func init() {
+	register(&Rule{ID: "R67", Name: "NOT-TOGGLE", Floor: 2,
+		Text: "NotClause.filter is evaluated (E5) in the two worlds Inverse=false / Inverse=true of a plain Filter sub-clause, with no error pending: when the path hands a filter.Filter to QFrame.filter (the shortcut that avoids computing the complement), the Inverse field of that value is the negation of the sub-clause's Inverse - Not(Filter{Inverse: true}) is the plain filter again, not the inverse",
+		Run:  runR67})
+}
+
+func runR67(c *Ctx) {
+	p := c.P
+	fn := p.Func("", "NotClause.filter")
+	if fn == nil {
+		c.undecided("NotClause.filter", "-", "method not found")
+		return
+	}
+	isInverseAddr := func(v ssa.Value) bool {
+		fa, ok := v.(*ssa.FieldAddr)
+		if !ok {
+			return false
+		}
+		st, ok := deref(fa.X.Type()).Underlying().(*types.Struct)
+		return ok && st.Field(fa.Field).Name() == "Inverse"
+	}
+	for _, inv := range []bool{false, true} {
+		key := fmt.Sprintf("(qframe.NotClause).filter|world sub-clause is a plain Filter with Inverse=%v", inv)
+		pe := &pathExec{fn: fn}
+		var atom func(x ssa.Value) (bool, bool)
+		atom = func(x ssa.Value) (bool, bool) {
+			switch t := x.(type) {
+			case *ssa.Extract:
+				if ta, ok := t.Tuple.(*ssa.TypeAssert); ok && ta.CommaOk && t.Index == 1 {
+					return true, true
+				}
+			case *ssa.BinOp:
+				if isErrorType(t.X.Type()) && (t.Op == token.NEQ || t.Op == token.EQL) {
+					return t.Op == token.EQL, true // no error pending
+				}
+			case *ssa.UnOp:
+				if t.Op == token.MUL && isInverseAddr(t.X) {
+					return inv, true // not overwritten on this path (resolve would have replaced it)
+				}
+			case *ssa.Field:
+				if st, ok := t.X.Type().Underlying().(*types.Struct); ok && st.Field(t.Field).Name() == "Inverse" {
+					return inv, true
+				}
+			}
+			return false, false
+		}
+		pe.oracle = func(pe *pathExec, cond ssa.Value) (bool, bool) { return pe.evalBool(cond, atom) }
+		stored, storedKnown, nStores := false, false, 0
+		handsOver := false
+		var at ssa.Instruction
+		pe.onInstr = func(pe *pathExec, in ssa.Instruction) {
+			switch t := in.(type) {
+			case *ssa.Store:
+				if isInverseAddr(t.Addr) {
+					nStores++
+					stored, storedKnown = pe.evalBool(t.Val, atom)
+					at = in
+				}
+			case *ssa.Call:
+				callee := t.Call.StaticCallee()
+				if callee == nil || callee.Pkg != fn.Pkg {
+					return
+				}
+				sig := callee.Signature
+				for i := 0; i < sig.Params().Len(); i++ {
+					pt := sig.Params().At(i).Type()
+					if sl, ok := pt.(*types.Slice); ok {
+						pt = sl.Elem()
+					}
+					if n, ok := pt.(*types.Named); ok && n.Obj().Name() == "Filter" && n.Obj().Pkg().Path() == rel("filter") {
+						handsOver = true
+						if at == nil {
+							at = in
+						}
+					}
+				}
+			}
+		}
+		end, why := pe.run()
+		if _, ok := end.(*ssa.Return); !ok {
+			c.undecided(key, p.pos(fn.Pos()), "cannot evaluate: "+why)
+			continue
+		}
+		switch {
+		case !handsOver:
+			c.okTrivial(key, p.pos(fn.Pos()), "no shortcut: the complement is computed from the sub-clause's result")
+		case nStores == 0:
+			c.bad(key, p.instrPos(at), "the plain filter is handed to QFrame.filter with its Inverse unchanged: Not has no effect")
+		case !storedKnown:
+			c.undecided(key, p.instrPos(at), "the value stored into Inverse cannot be evaluated")
+		case stored == !inv:
+			c.ok(key, p.instrPos(at), fmt.Sprintf("Inverse becomes %v", stored))
+		default:
+			c.bad(key, p.instrPos(at), fmt.Sprintf("Inverse becomes %v, but the complement of a filter with Inverse=%v has Inverse=%v", stored, inv, !inv))
+		}
+	}
+}
+
+// ---- R70: QFrame.Equals compares every column pair, also for frames without rows ----
+
+func init() {
+	register(&Rule{ID: "R70", Name: "EQUALS-EVERY-COLUMN", Floor: 3,
+		Text: "in QFrame.Equals the loop over the receiver's columns compares, on every iteration that reaches the next one, the two names and invokes Column.Equals on the pair (both dominate every back edge of the loop: no row-count or other condition skips them, so column types are compared for row-less frames too), and every `return true` is dominated by that loop's header (the loop cannot be bypassed)",
+		Run:  runR70})
+}
+
+func runR70(c *Ctx) {
+	p := c.P
+	fn := p.Func("", "QFrame.Equals")
+	if fn == nil {
+		c.undecided("QFrame.Equals", "-", "method not found")
+		return
+	}
+	fnm := fname(fn)
+	var loop *loopInfo
+	loops := loopsOf(fn)
+	for i := range loops {
+		li := &loops[i]
+		if li.base == nil {
+			continue
+		}
+		if sl, ok := li.base.Type().Underlying().(*types.Slice); ok {
+			if n, ok := sl.Elem().(*types.Named); ok && n.Obj().Name() == "namedColumn" && fieldPathRootIsParam(li.base, fn.Params[0]) {
+				loop = li
+			}
+		}
+	}
+	if loop == nil {
+		c.undecided(fnm+"|column loop", p.pos(fn.Pos()), "no loop ranging over the receiver's columns found")
+		return
+	}
+	var eqCall, nameCmp ssa.Instruction
+	eachInstr(fn, func(in ssa.Instruction) {
+		if !inLoop(*loop, in.Block()) {
+			return
+		}
+		switch t := in.(type) {
+		case ssa.CallInstruction:
+			cc := t.Common()
+			if cc.IsInvoke() && cc.Method.Name() == "Equals" && cc.Method.Pkg() != nil && cc.Method.Pkg().Path() == rel("internal/column") {
+				eqCall = in
+			}
+		case *ssa.BinOp:
+			if (t.Op == token.NEQ || t.Op == token.EQL) && fieldNameOfLoad(t.X) == "name" && fieldNameOfLoad(t.Y) == "name" {
+				nameCmp = in
+			}
+		}
+	})
+	everyIter := func(what string, in ssa.Instruction) {
+		key := fnm + "|" + what
+		if in == nil {
+			c.bad(key, p.pos(fn.Pos()), "the column loop contains no "+what)
+			return
+		}
+		for _, pred := range loop.header.Preds {
+			if !loop.header.Dominates(pred) {
+				continue
+			}
+			if !(in.Block() == pred || in.Block().Dominates(pred)) {
+				c.bad(key, p.instrPos(in), fmt.Sprintf("the %s is skipped on some iterations (an iteration reaches the next one without it, e.g. when the frames have no rows): two frames can then be Equal although this column pair was never compared", what))
+				return
+			}
+		}
+		c.ok(key, p.instrPos(in), "executed on every iteration of the column loop")
+	}
+	everyIter("Column.Equals call", eqCall)
+	everyIter("name comparison", nameCmp)
+	nTrue, bad := 0, ""
+	eachInstr(fn, func(in ssa.Instruction) {
+		ret, ok := in.(*ssa.Return)
+		if !ok || len(ret.Results) == 0 || !isConstBool(ret.Results[0], true) {
+			return
+		}
+		nTrue++
+		if !loop.header.Dominates(in.Block()) {
+			bad = p.instrPos(in)
+		}
+	})
+	switch {
+	case nTrue == 0:
+		c.undecided(fnm+"|return true", p.pos(fn.Pos()), "no constant `return true` found")
+	case bad != "":
+		c.bad(fnm+"|return true", bad, "a `return true` is reachable without entering the column loop")
+	default:
+		c.ok(fnm+"|return true", p.pos(fn.Pos()), fmt.Sprintf("%d return(s) of true, all behind the column loop", nTrue))
+	}
+}
+
+// fieldPathRootIsParam: v is prm, a field (of a field ...) of prm, or of the local variable prm was spilled to.
+func fieldPathRootIsParam(v ssa.Value, prm *ssa.Parameter) bool {
+	for i := 0; i < 12; i++ {
+		switch t := v.(type) {
+		case *ssa.UnOp:
+			if t.Op != token.MUL {
+				return false
+			}
+			v = t.X
+		case *ssa.FieldAddr:
+			v = t.X
+		case *ssa.Field:
+			v = t.X
+		case *ssa.Slice:
+			v = t.X
+		case *ssa.Alloc:
+			return singleDef(t) == ssa.Value(prm)
+		case *ssa.Parameter:
+			return t == prm
+		default:
+			return false
+		}
+	}
+	return false
+}
